@@ -108,10 +108,40 @@ def run_text(text: str) -> Tuple[str, Optional[Tuple[str, str]]]:
 
 
 def run_files(files: Dict[str, str]) -> Tuple[str, Optional[Tuple[str, str]]]:
+    """The way the root file is reached is a function of the file map (so that a replay takes the same way): directly,
+    through a symbolic link to the directory, with module files that are symbolic links to differently named files, or
+    by a relative path from another working directory."""
+    import zlib
+
+    mode = zlib.crc32(repr(sorted(files.items())).encode()) % 4
     with MO.Scratch("verif-c11-") as sc:
         sc.write(files)
-        kind, res, logger = MO.get_fcp_logged(sc.path("main.fcp"))
-        return kind, judge(kind, res, logger)
+        root = sc.path("main.fcp")
+        link = None
+        cwd = None
+        try:
+            if mode == 1:
+                link = sc.dir + "-lnk"
+                os.symlink(sc.dir, link)
+                root = os.path.join(link, "main.fcp")
+            elif mode == 2:
+                for n, rel in enumerate(sorted(files)):
+                    pth = sc.path(rel)
+                    if rel != "main.fcp" and os.path.isfile(pth):
+                        tgt = os.path.join(os.path.dirname(pth), f"real{n}.txt")
+                        os.rename(pth, tgt)
+                        os.symlink(tgt, pth)
+            elif mode == 3:
+                cwd = os.getcwd()
+                os.chdir(os.path.dirname(sc.dir))
+                root = os.path.join(os.path.basename(sc.dir), "main.fcp")
+            kind, res, logger = MO.get_fcp_logged(root)
+            return kind, judge(kind, res, logger)
+        finally:
+            if cwd is not None:
+                os.chdir(cwd)
+            if link is not None:
+                os.unlink(link)
 
 
 # ------------------------------------------------------------------------ generators
